@@ -1,5 +1,6 @@
 import Gleece.Driver.IR
 import Gleece.Model.Bounds
+import Gleece.Driver.ConvCheck
 open Lean
 namespace Gleece.Driver
 
@@ -63,8 +64,23 @@ partial def jsonAt (j : Json) : List String → Json
     else jsonAt ((j.getObjVal? k).toOption.getD Json.null) rest
 
 /-- classify one difference: known-finding id or "" -/
-def classifyDiff (n30 n31 : Json) (d : Diff) : String :=
+def classifyDiff (n30 n31 : Json) (excused : List (String × String × String)) (d : Diff) : String :=
   let last := d.path.getLast?.getD ""
+  -- a difference inside the schema of a parameter whose tag holds a value only one converter reads
+  let malformedParam : Bool :=
+    match d.path with
+    | "paths" :: p :: verb :: "parameters" :: idx :: "schema" :: _ =>
+      let op := jsonAt n31 ["paths", p, verb]
+      let q := jsonAt n31 ["paths", p, verb, "parameters", idx]
+      excused.contains (jstrD op "operationId", jstrD q "name", jstrD q "in")
+    | "components" :: "schemas" :: m :: "properties" :: prop :: _ => excused.contains ("component", m, prop)
+    | "components" :: "schemas" :: m :: "allOf" :: _ :: "properties" :: prop :: _ => excused.contains ("component", m, prop)
+    | "paths" :: p :: verb :: "requestBody" :: "content" :: "application/x-www-form-urlencoded" :: "schema" :: "properties" :: prop :: _ =>
+      excused.contains ("form", jstrD (jsonAt n31 ["paths", p, verb]) "operationId", prop)
+    | "paths" :: p :: verb :: "requestBody" :: "content" :: "application/json" :: "schema" :: _ =>
+      excused.contains ("body", jstrD (jsonAt n31 ["paths", p, verb]) "operationId", "")
+    | _ => false
+  if malformedParam then "excused" else
   let parent31 := jsonAt n31 d.path.dropLast
   let inComponents := d.path.take 2 = ["components", "schemas"]
   -- C11-F1: 3.0 adds a `default` response to every operation, 3.1 never does
@@ -78,6 +94,8 @@ def classifyDiff (n30 n31 : Json) (d : Diff) : String :=
         (parent31.getObjVal? "maximum").toOption.isSome && (parent31.getObjVal? "exclusiveMaximum").toOption.isSome) then "C11-F3"
   -- C11-F5: `enum=` APPENDS to an existing member list in 3.0 and REPLACES it in 3.1 (e.g. `oneof=a b,enum=a|b`)
   else if last = "enum" && d.kind = "len" && (match d.a, d.b with | .arr x, .arr y => x.size > y.size | _, _ => false) then "C11-F5"
+  -- C11-F8: an upper count of zero (`max=0`, `len=0`, `maxItems=0`) is dropped by the 3.1 renderer
+  else if (last = "maxLength" || last = "maxItems") && d.kind = "only30" && d.a == Json.num 0 then "C11-F8"
   -- C07-F1: a usage site (parameter description / validator) rewrote the SHARED 3.0 component
   else if inComponents && d.path.length = 4 && (last = "description" || last = "enum" || last = "format") then "C07-F1"
   else
@@ -139,16 +157,21 @@ def checkC11 (d : IRDoc) (impl : Json) : PropOut := Id.run do
     let n30 := normDoc true s30.doc
     let n31 := normDoc false s31.doc
     let ds := diffJson [] n30 n31
-    let fails := ds.map fun df =>
-      let fid := classifyDiff n30 n31 df
+    let ct := convTie d s30.doc s31.doc
+    let allFails := ds.map fun df =>
+      let fid := classifyDiff n30 n31 ct.excused df
       (if fid.isEmpty then "" else fid ++ ":") ++ s!"{df.kind}:{pathStr df.path}"
+    let nExcused := (allFails.filter fun f => f.startsWith "excused:").length
+    let fails := allFails.filter fun f => !f.startsWith "excused:"
     -- collapse the (many) occurrences of a known finding to one entry per finding per case
     let known := (fails.filter fun f => f.startsWith "C").map (fun f => (f.splitOn ":")[0]!) |>.eraseDups
     let unknown := fails.filter fun f => !f.startsWith "C"
     let ops := docOperations s30.doc
-    let tie := boundTieFails d s30.doc s31.doc
+    let tie := ct.fails.take 4
     return { model := n31, implView := n30, implFails := known.map (· ++ ":dialect-difference") ++ unknown.take 6,
-             modelFails := tie, nontrivial := !ops.isEmpty, notes := [s!"d:diffs={ds.length}"] }
+             modelFails := tie, nontrivial := !ops.isEmpty,
+             notes := [s!"d:diffs={ds.length}", s!"d:conv-compared={ct.compared}", s!"d:conv-agreeable={ct.agreeable}",
+                       s!"d:conv-out-of-oracle={ct.skipped}", s!"d:excused-diffs={nExcused}"] }
   | some e30, none =>
     return { model := Json.str "ok", implView := Json.str "error", implFails := [s!"3.0-fails-3.1-succeeds:{e30.take 60}"], nontrivial := true }
   | none, some e31 =>
